@@ -145,9 +145,20 @@ func vconfig(c vCall) *snaps.Config {
 	return snaps.WithConfig(opts...)
 }
 
+// vFailingMarshaler: a Go value the encoders reject through its own marshal methods.
+type vFailingMarshaler struct{ Why string }
+
+func (f vFailingMarshaler) MarshalJSON() ([]byte, error) { return nil, fmt.Errorf("%s", f.Why) }
+func (f vFailingMarshaler) MarshalYAML() ([]byte, error) { return nil, fmt.Errorf("%s", f.Why) }
+
 func vinput(c vCall) any {
-	if c.Form == "bytes" {
+	switch c.Form {
+	case "bytes":
 		return []byte(c.Val)
+	case "marshal-error":
+		return map[string]any{"reading": vFailingMarshaler{Why: "sensor offline"}, "n": 1}
+	case "unsupported-value":
+		return map[string]any{"ch": make(chan int)}
 	}
 	return c.Val
 }
@@ -214,7 +225,7 @@ func vdigest(when string, backdate bool) {
 			if rel == "bin" || strings.HasPrefix(rel, "bin/") {
 				continue
 			}
-			if when == "pre" && fi.Mode().IsRegular() && fi.Size() < 8<<20 && (strings.Contains(rel, ".snap") || strings.Contains(rel, "__snapshots__")) {
+			if when == "pre" && (fi.Mode().IsRegular() || fi.Mode()&os.ModeSymlink != 0) && fi.Size() < 8<<20 && (strings.Contains(rel, ".snap") || strings.Contains(rel, "__snapshots__")) {
 				if b, err := os.ReadFile(p); err == nil {
 					dst := filepath.Join(os.Getenv("VERIF_OUTDIR"), "precopy", fmt.Sprint(ri), rel)
 					os.MkdirAll(filepath.Dir(dst), 0o755)
@@ -235,6 +246,8 @@ func vdigest(when string, backdate bool) {
 			case fi.IsDir():
 				e.Type = "d"
 				e.Size = 0
+			case fi.Mode()&os.ModeSymlink != 0:
+				e.Type = "l"
 			default:
 				e.Type = "?"
 			}
@@ -423,6 +436,8 @@ func call_{{SFX}}(t testing.TB, c vCall, idx int) {
 		wg.Wait()
 	case "defer-return":
 		deferred(func() {})
+	case "direct-othertest":
+		OtherTestDirect(c.API, vconfig(c), rec, c.Val, vinput(c))
 	case "direct-nontest":
 		direct()
 	case "direct-nontest-helper":
@@ -577,6 +592,31 @@ func DeepDirect(n int, api string, c *snaps.Config, t HelperT, val string, in an
 		DirectStandalone(c, t, val)
 	default:
 		DirectStandaloneJSON(c, t, in)
+	}
+}
+`
+
+// tmplOtherTestHelpers: a _test.go file that holds assertion helpers and no test function;
+// default-named snapshots of calls made here are named after THIS file.
+const tmplOtherTestHelpers = `package {{PKG}}
+
+import (
+	"github.com/gkampitakis/go-snaps/snaps"
+)
+
+//go:noinline
+func OtherTestDirect(api string, c *snaps.Config, t HelperT, val string, in any) {
+	switch api {
+	case "snap":
+		c.MatchSnapshot(t, val)
+	case "json":
+		c.MatchJSON(t, in)
+	case "yaml":
+		c.MatchYAML(t, in)
+	case "ssnap":
+		c.MatchStandaloneSnapshot(t, val)
+	default:
+		c.MatchStandaloneJSON(t, in)
 	}
 }
 `
